@@ -11,7 +11,8 @@ class Node:
     def __init__(self, kind, name="", attrs=None, ns=""):
         self.kind = kind      # root | elem | text | comment | pi
         self.name = name      # local name
-        self.ns = ns          # "" no namespace | "p" prefix p (urn:p) | "d" default namespace urn:d
+        self.ns = ns          # namespace key, see NS_KEYS: "" none | "d", "d#2" default namespace (two URIs) |
+                              # "p", "p#2", "pre", "pre#2": prefix p / pre bound to the URI of the key (two URIs each)
         self.attrs = attrs or {}
         self.kids = []
         self.parent = None
@@ -21,6 +22,20 @@ class Node:
         k.parent = self
         self.kids.append(k)
         return k
+
+
+# namespace keys: the prefix (or the default namespace) is the part before '#'; every key has its own URI, so the same
+# prefix — one letter long (p) or longer (pre) — is bound to different namespaces in different subtrees of one document.
+# The stylesheet binds p -> urn:p and pre -> urn:pre (keys "p", "pre").
+NS_KEYS = ["", "p", "d", "p#2", "pre", "pre#2", "d#2"]
+
+
+def ns_prefix(key):
+    return "" if key.startswith("d") else key.split("#")[0]
+
+
+def ns_uri(key):
+    return "urn:" + key.replace("#", "")
 
 
 def gen_children(r, parent, budget, depth, dns=""):
@@ -34,9 +49,15 @@ def gen_children(r, parent, budget, depth, dns=""):
             kind = "elem"
         if kind == "elem":
             e = parent.add(Node("elem", r.weighted([("x", 5), ("y", 3), ("h", 3), ("z", 1), ("s", 3)]),
-                                {"k": "1"} if r.chance(1, 4) else {}, ns="p" if r.chance(1, 7) else dns))
+                                {"k": "1"} if r.chance(1, 4) else {},
+                                ns=r.weighted([("p", 3), ("p#2", 3), ("pre", 2), ("pre#2", 2)]) if r.chance(1, 5) else dns))
             budget -= 1
-            budget = gen_children(r, e, budget, depth + 1, dns)
+            # a subtree may re-bind the default namespace to the other URI
+            sub = dns
+            if dns and e.ns == dns and r.chance(1, 6):
+                sub = "d#2" if dns == "d" else "d"
+                e.ns = sub
+            budget = gen_children(r, e, budget, depth + 1, sub)
         elif kind == "text":
             parent.add(Node("text", "t"))
             budget -= 1
@@ -115,8 +136,8 @@ def tree_from_spec(spec):
         ns = ""
         if name.startswith("p:"):
             ns, name = "p", name[2:]
-        elif name.startswith("{d}"):
-            ns, name = "d", name[3:]
+        elif name.startswith("{"):
+            ns, name = name[1:name.index("}")], name[name.index("}") + 1:]
         rest = s[1:]
         attrs = {}
         if rest and isinstance(rest[0], dict):
@@ -139,7 +160,7 @@ def tree_spec(root):
             return "!" + n.name
         if n.kind == "pi":
             return "?" + n.name
-        l = [{"": "", "p": "p:", "d": "{d}"}[n.ns] + n.name]
+        l = [("{%s}" % n.ns if n.ns else "") + n.name]
         if n.attrs:
             l.append(dict(n.attrs))
         return l + [go(k) for k in n.kids]
@@ -147,11 +168,8 @@ def tree_spec(root):
 
 
 def to_xml(root):
-    top = [k for k in root.kids if k.kind == "elem"]
-    has_d = any(n.kind == "elem" and n.ns == "d" for n in preorder(root))
-    has_p = any(n.kind == "elem" and n.ns == "p" for n in preorder(root))
-
-    def go(n):
+    def go(n, scope):
+        """scope = key of the default namespace in scope ('' = none)"""
         if n.kind == "text":
             return n.name
         if n.kind == "comment":
@@ -159,13 +177,17 @@ def to_xml(root):
         if n.kind == "pi":
             return "<?%s d?>" % n.name
         a = "".join(' %s="%s"' % kv for kv in sorted(n.attrs.items()))
-        if top and n is top[0]:
-            a += (' xmlns="urn:d"' if has_d else "") + (' xmlns:p="urn:p"' if has_p else "")
-        tag = ("p:" if n.ns == "p" else "") + n.name
+        pre = ns_prefix(n.ns)
+        if pre:
+            a += ' xmlns:%s="%s"' % (pre, ns_uri(n.ns))       # every prefixed element binds its own prefix
+        elif n.ns != scope:
+            a += ' xmlns="%s"' % (ns_uri(n.ns) if n.ns else "")
+            scope = n.ns
+        tag = (pre + ":" if pre else "") + n.name
         if not n.kids:
             return "<%s%s/>" % (tag, a)
-        return "<%s%s>%s</%s>" % (tag, a, "".join(go(k) for k in n.kids), tag)
-    return "".join(go(k) for k in root.kids)
+        return "<%s%s>%s</%s>" % (tag, a, "".join(go(k, scope) for k in n.kids), tag)
+    return "".join(go(k, "") for k in root.kids)
 
 
 def node_class(n):
@@ -178,7 +200,7 @@ def node_class(n):
         return 2
     if n.kind == "pi":
         return 10 + ["p", "q"].index(n.name) if n.name in ("p", "q") else 19
-    return 20 + NAMES.index(n.name) + 10 * ["", "p", "d"].index(n.ns) if n.name in NAMES else 99
+    return 20 + NAMES.index(n.name) + 10 * NS_KEYS.index(n.ns) if n.name in NAMES else 99
 
 
 def ancestors(n):
@@ -199,8 +221,9 @@ def is_elem(n, name=None):
         return False
     if name is None:
         return True
-    if name.startswith("p:"):
-        return n.ns == "p" and n.name == name[2:]
+    if ":" in name:                 # the stylesheet binds p -> urn:p, pre -> urn:pre: only the keys "p" / "pre" match
+        pre, local = name.split(":")
+        return n.ns == pre and n.name == local
     return n.ns == "" and n.name == name
 
 
@@ -254,8 +277,8 @@ def gen_count_pattern(r):
     k = r.weighted([("name", 8), ("union", 4), ("star", 4), ("node", 3), ("text", 2), ("attr", 2), ("child", 2),
                     ("desc", 2), ("not", 2), ("haschild", 1), ("comment", 1), ("pi", 1), ("starattr", 1)])
     a = r.choice(NAMES)
-    if r.chance(1, 8):
-        a = "p:" + a
+    if r.chance(1, 6):
+        a = r.choice(["p:", "pre:"]) + a
     b = r.choice([n for n in NAMES if n != a])
     return {"name": lambda: pat_name(a), "union": lambda: pat_union(a, b), "star": lambda: PAT_STAR,
             "node": lambda: PAT_NODE, "text": lambda: PAT_TEXT, "attr": lambda: pat_attr(a),
@@ -269,6 +292,8 @@ def gen_from_pattern(r):
                     ("text", 1), ("starattr", 1)])
     a = r.weighted([("h", 4), ("s", 4), ("x", 1), ("y", 1)])
     b = r.choice([n for n in NAMES if n != a])
+    if r.chance(1, 6):
+        a = r.choice(["p:", "pre:"]) + a
     return {"name": lambda: pat_name(a), "union": lambda: pat_union(a, b), "attr": lambda: pat_attr(a),
             "child": lambda: pat_child(b, a), "haschild": lambda: pat_haschild(a, b), "comment": lambda: PAT_COMMENT,
             "text": lambda: PAT_TEXT, "starattr": pat_star_attr}[k]()
@@ -424,7 +449,7 @@ def sort_perm(r, n):
 def stylesheet(instrs_orders):
     """instrs_orders: list of (Instr, [history…]) where a history is a list of node indices or ('sort',(A,B,P),order).
     Each (instruction, history) pair gets its own xsl:number element (its own counters)."""
-    out = ['<xsl:stylesheet version="1.0" xmlns:xsl="http://www.w3.org/1999/XSL/Transform" xmlns:p="urn:p"><xsl:output method="text" encoding="UTF-8"/>']
+    out = ['<xsl:stylesheet version="1.0" xmlns:xsl="http://www.w3.org/1999/XSL/Transform" xmlns:p="urn:p" xmlns:pre="urn:pre"><xsl:output method="text" encoding="UTF-8"/>']
     body = ['<xsl:template match="/"><xsl:variable name="all" select=".|//node()"/>']
     for j, (ins, hists) in enumerate(instrs_orders):
         d = def_snippet(ins)
